@@ -25,7 +25,7 @@ META["text"] = (
     "Partial: C08_spring_gradient_ball_partial - ball joints / rotational part of free joints only in the radial direction (qpos = qpos_spring rotated by t about a fixed axis, 0 < t <= pi, no mjMINVAL guard): potential = polyPotential(t), torque = -(t polyForce(t)) axis, and t polyForce(t) = d polyPotential/dt; tangential directions and the translational free-joint spring have no theorem (finite-difference oracle only). "
     "C08_rk4_scheme_order - inherited from C05_rk4_tableau (not re-proved): the tableau regenerated from engine_forward.c satisfies the order-4 conditions; the SCHEME is 4th order. "
     "NOT theorems (oracle on the implementation only): that the engine's total energy drift under RK4 scales as h^4, and momentum conservation. "
-    "Tie: on every run the model is evaluated at binary64 inside Coq on data exported from the compiled model and mjData (gravity, masses, xipos, joint types/stiffness/polynomial coefficients/qpos/qpos_spring, tendon springs with dead bands, the CSR arrays of M, qvel) and compared with energy[0], energy[1] and the joint-level qfrc_spring of the working tree (gravity / spring disable flags included). "
+    "Tie: on every run the model is evaluated at binary64 inside Coq on data exported from the compiled model and mjData (gravity, masses, xipos, joint types/stiffness/polynomial coefficients/qpos/qpos_spring, tendon springs with dead bands, the CSR arrays of M, qvel) and compared with energy[0], energy[1] and the joint-level qfrc_spring of the working tree (gravity / spring disable flags included; every joint and tendon gets one of the 8 zero/non-zero combinations of linear, quadratic and cubic stiffness, so purely nonlinear springs - linear coefficient 0 - are always present). "
     "Oracles on implementation output: energy[1] against 1/2 v' fullM v and against the body-level sum 1/2 (m |v_com|^2 + w.I w) + 1/2 armature qvel^2 (independent of M); central finite differences of energy[0] over mj_integratePos perturbations against qfrc_bias - qfrc_spring at zero velocity (covers ball/free/tendon springs and gravity); "
     "on generated conservative trees (damping, friction, actuation, contacts, constraints removed) the maximal energy drift over a fixed horizon under RK4 at h, h/2, h/4, h/8 must shrink by >= 10x per halving at the finest pair of levels above round-off and >= 6x at the next coarser pair (cases entirely at round-off level skipped); "
     "with gravity off, free-floating trees keep linear and angular momentum (computed in python from per-body masses, inertias, poses and velocities, and cross-checked with subtree_linvel / subtree_angmom) to 1e-9 * scale over 20 RK4 steps of 1e-5 s.")
@@ -304,11 +304,17 @@ def run(ctx):
     cases, descr = [], []
     counts = {"kinetic": 0, "gradient_dofs": 0, "drift_models_used": 0, "drift_models_skipped": 0, "momentum_models": 0, "momentum_not_floating": 0}
     jt = [0, 0, 0, 0]
+    combos = {"T": [0] * 8, "G": [0] * 8, "D": [0] * 8}     # joints per (linear, quadratic, cubic) zero/non-zero combination
     for (op, req), D in zip(allreq, blocks):
         if "ERR" in D:
             ctx.violation("impl_violation", {"request": "%s %s" % (op, " ".join(str(x) for x in req))}, expected="no mju_error on a compiled model", observed=D["ERR"],
                           theorem="C08", signature={"law": "no error", "class": "generic"})
             continue
+        if op in combos and "jnt_stiffness" in D:
+            npoly = D["npoly"][0]
+            for j in range(D["njnt"][0]):
+                pl = D["jnt_stiffnesspoly"][npoly * j:npoly * j + npoly]
+                combos[op][(1 if D["jnt_stiffness"][j] != 0 else 0) + sum((2 << k) for k in range(min(npoly, 2)) if pl[k] != 0)] += 1
         if op in ("T", "G"):
             for (law, exp, obs) in oracle_kinetic(D):
                 report(law, op, req, {}, exp, obs, "C08_kinetic")
@@ -350,10 +356,15 @@ def run(ctx):
     ctx.cov["evaluations"] = len(cases)
     ctx.cov["distinct_nontrivial"] = sum(1 for (req, what) in descr if req[2] >= 2)
     ctx.cov["rule"] = ("one Coq evaluation per (generated model, state, part) with part in {mj_energyPos, mj_energyVel, joint-level qfrc_spring (models without tendons)}; models from mjgen.h with all joint types, joint springs with "
-                       "randomised polynomial coefficients, fixed tendons with springs and dead bands, multi-tree, gravity / spring disable flags, unnormalised ball quaternions; non-trivial = model with at least two moving bodies")
+                       "every zero / non-zero combination of linear, quadratic and cubic stiffness coefficients (purely nonlinear springs included), fixed tendons with springs and dead bands, multi-tree, gravity / spring disable flags, unnormalised ball quaternions; non-trivial = model with at least two moving bodies")
     ctx.cov["samples"] = [{"request": "T %s" % " ".join(str(x) for x in d[0]), "part": d[1]} for d in (descr[:1] + descr[len(descr) // 2:len(descr) // 2 + 1] + descr[-1:])]
     ctx.cov["correspondence_disagreements"] = len(fails)
     ctx.cov["support"]["oracle_counts"] = counts
     ctx.cov["support"]["joint_types_seen_free_ball_slide_hinge"] = jt
+    ctx.cov["support"]["joint_spring_coefficient_combinations"] = {
+        "index": "bit0 linear != 0, bit1 quadratic != 0, bit2 cubic != 0; entries 2, 4, 6 are purely nonlinear springs", "tie": combos["T"], "gradient_oracle": combos["G"], "drift_oracle": combos["D"]}
+    for grp, name in (("T", "tie"), ("G", "gradient oracle"), ("D", "drift oracle")):
+        if combos[grp][2] + combos[grp][4] + combos[grp][6] == 0:
+            ctx.broken.append(("correspondence", "no purely nonlinear joint spring (linear stiffness 0, polynomial coefficients non-zero) was exercised by the " + name, str(combos[grp])))
     ctx.cov["explanation"] = ("theorems of Props/C08.v proved over R; model tied to the working tree on %d evaluations; oracles: %d kinetic-energy states, %d gradient dofs, %d drift models (%d skipped at round-off / coarse level), %d free-floating momentum models"
                               % (len(cases), counts["kinetic"], counts["gradient_dofs"], counts["drift_models_used"], counts["drift_models_skipped"], counts["momentum_models"]))
